@@ -379,14 +379,20 @@ def r5_partitions(ctx):
         ip, fn = log.ip, log.fn
         bp, i = A(0), T.var('a1', 'u32')
         kinds = set()
+        # the position of the scan: the variable(s) that advance by one on EVERY way round the loop (a range iterator,
+        # an index variable); the count of satisfying elements is the other zero-initialised usize
+        always = None
+        for it in log.iterations:
+            cs = {hv for hv, ev in counters(ip, it)}
+            always = cs if always is None else always & cs
+        always = always or set()
         for it in log.iterations:
             pc_ = [c for c in it.calls if c[0].endswith('::call')]
             js = [hv for hv, ev in it.mapping if T.TYPES.get(hv) == 'usize' and ev == I(0)]
             ok = len(pc_) == 1 and len(js) >= 1
             if ok:
                 sat = T.typed(calllog.call_term(pc_[0]), 'bool')
-                # the counter: the zero-initialised usize that is not the range iterator position
-                cnts = [jv for jv in js if 'iter' not in jv[1]]
+                cnts = [jv for jv in js if jv not in always]
                 ok = len(cnts) == 1
                 if ok:
                     jv = cnts[0]
